@@ -117,14 +117,28 @@ func Clean(m *testing.M, opts ...CleanOpts) {
 	}
 }
 
+// prefixes of the names the go test runner gives to tests, benchmarks and fuzz targets
+var testIDPrefixes = [][]byte{[]byte("[Test"), []byte("[Benchmark"), []byte("[Fuzz")}
+
+func hasTestIDPrefix(b []byte) bool {
+	for _, prefix := range testIDPrefixes {
+		if bytes.HasPrefix(b, prefix) {
+			return true
+		}
+	}
+
+	return false
+}
+
 // getTestID will return the testID if the line is in the form of [Test... - number]
+// (or [Benchmark... - number], [Fuzz... - number])
 func getTestID(b []byte) (string, bool) {
 	if len(b) == 0 {
 		return "", false
 	}
 
-	// needs to start with [Test and end with ]
-	if !bytes.HasPrefix(b, []byte("[Test")) || b[len(b)-1] != ']' {
+	// needs to start with [Test ([Benchmark, [Fuzz) and end with ]
+	if !hasTestIDPrefix(b) || b[len(b)-1] != ']' {
 		return "", false
 	}
 
